@@ -453,6 +453,14 @@ def check(ctx):
     c20.check_delivery(sub)
     for rule, key, ok, where, what, detail in sub.got:
         ctx.ob('R6.1-queue-deliveries', '%s/%s' % (rule, key), ok, where, what, detail)
+    # "mass-action networks never report a negative count": each mass-action reaction is guarded by its own reactants - the species string
+    # create_reaction derives for it is not left behind in a dictionary the caller may hand to the next reaction (C01 R1.3) - re-emitted
+    from ..core import SubCtx as _Sub
+    from . import c01 as _c01
+    sub = _Sub(ctx)
+    _c01.check_arguments_untouched(sub)
+    for rule, key, ok, where, what, detail in sub.got:
+        ctx.ob('R6.3-guard-multiset', 'C01/%s/%s' % (rule, key), ok, where, what, detail)
     # "in safe mode no reaction fires without its full complement of reactants": the entry point gives every stochastic run that asks
     # for safe mode the safe interface - also a run that only delay=True makes stochastic (C07 R7.2-dispatch-table) - re-emitted here
     from ..core import SubCtx
